@@ -367,6 +367,11 @@ def build_inputs(ctx):
         if rng.random() < 0.4:
             st = g3.random_occupancies(st, rng, 0.4)
         cases.append(("coincident-atoms", st, None, ALL_OPTS if not ctx.quick else rng.sample(ALL_OPTS, 8)))
+    for n, s in small[: ctx.pick(3, 12)]:
+        for _ in range(ctx.pick(2, 4)):
+            alt = g3.with_alt_conformers(g3.window(s, rng, 12), rng)
+            if alt is not None:
+                cases.append(("alternate-conformers-in-one-residue", alt, None, ALL_OPTS))
     cases += handmade()
     cases = [c for c in cases if g3.well_formed(c[1], allow_repeated_identity=c[0] == "split-residue") and c[1].residues]
     return cases
@@ -397,7 +402,9 @@ def main_jobs(ctx, cases):
     for ci, (tag, st, path, opts) in enumerate(cases):
         fam = tag.split(":")[0]
         if path is not None and g3.n_atoms(st) <= ctx.pick(3000, 10 ** 6):
-            for o in (["00001", "10001"] + rng.sample(ALL_OPTS, ctx.pick(2, 8))):
+            # fixed: molprobity mode alone / with occupancies ignored, and --nucleic-acid-only alone / with both (files whose
+            # entity tables and residue contents disagree about what a nucleotide is: 4qln.cif has two c-di-AMP ligands)
+            for o in (["00001", "10001"] + (["00100", "10101"] if path.endswith(".cif") and g3.n_atoms(st) <= 4000 else []) + rng.sample(ALL_OPTS, ctx.pick(2, 8))):
                 jobs.append((ci, o, "path"))
         elif path is None and g3.n_atoms(st) <= 1200:
             p = {"straddle": 0.06, "partial-occupancy": 0.5, "hand": 1.0}.get(fam, 0.5)
